@@ -513,6 +513,7 @@ def jobs(tier):
     js.append({"name": "stacking", "kind": "stacking"})
     js.append({"name": "biaffine", "kind": "biaffine"})
     js.append({"name": "sparse-const", "kind": "sparse_const"})
+    js.append({"name": "shim-conformance", "kind": "conformance"})
     seed = int(os.environ.get("VERIF_SEED", "0") or 0)
     ncomp = 60 if tier == "quick" else 400
     for k in range(4):
@@ -552,6 +553,17 @@ def run_job(job):
         return sparse_const()
     if k == "compositions":
         return compositions(job["depth"], job["n"], job["seed"])
+    if k == "conformance":
+        # the assumed contracts of the NumPy/SciPy shims, tested against the real libraries on every formula that
+        # rsome's own test-suite hands to a solver; a mismatch is a defect of the CHECKER (exit 3), never a violation
+        from .. import conformance
+        from ..engine import ob
+        r = conformance.compare()
+        if r["mismatches"] or r["formulas"] == 0:
+            raise RuntimeError(f"shim conformance failed: {r['mismatches'][:5]}")
+        return [ob("rverif.shims:<numpy/scipy shims>", "conformance-with-real-numpy-scipy",
+                   f"{r['tests']} tests, {r['formulas']} formula comparisons (float and object mode)", "discharged",
+                   mode="conformance", bounded=True, backend="concrete", seconds=0.0, path="")]
     raise ValueError(k)
 
 
